@@ -135,7 +135,17 @@ def answer (evs : List Event) (q : Query) : String :=
   let isBool := match q.filter with | .and _ _ | .or _ _ | .not _ => true | _ => false
   -- a boolean combination that mentions a field which some event in range lacks (see known_findings.txt)
   let sparse := if isBool && inr.any (fun e => q.filter.fields.any (fun f => (e.get f).isNone)) then ["boolean-over-sparse-field"] else []
-  let cls := ((tri.flatMap (fun (_, (_, c)) => c)) ++ mixedTextFields inr q.filter.fields ++ sparse).eraseDups
+  -- `!=` / NOT on a field that some event in range lacks: whether such an event matches is left to the
+  -- engine by the statement, but the engine's answer must not depend on the layout (it does: known finding)
+  let rec hasNeg : Filter → Bool
+    | .all => false
+    | .cmp _ op _ => op == .ne
+    | .and a b => hasNeg a || hasNeg b
+    | .or a b => hasNeg a || hasNeg b
+    | .not _ => true
+  let negSparse := if hasNeg q.filter && evs.any (fun e => q.filter.fields.any (fun f => (e.get f).isNone))
+    then ["negation-over-sparse-field"] else []
+  let cls := ((tri.flatMap (fun (_, (_, c)) => c)) ++ mixedTextFields inr q.filter.fields ++ sparse ++ negSparse).eraseDups
   let must := (tri.filter (fun (_, (t, _)) => t == Tri.yes)).map (·.1)
   let may := (tri.filter (fun (_, (t, _)) => t == Tri.either)).map (·.1)
   match q.stages with
@@ -171,7 +181,9 @@ def answer (evs : List Event) (q : Query) : String :=
 def e2e (args : List String) : String :=
   -- split at the markers H and Q
   let (_cfg, r1) := args.span (· != "H")
-  let (hist, r2) := (r1.drop 1).span (· != "Q")
+  let (hist, r2) := (r1.drop 1).span (fun t => t != "Q" && t != "H2")
+  -- an optional second layout of the SAME events (H2 …) does not change the specification's answer
+  let r2 := r2.dropWhile (· != "Q")
   let qs := r2.drop 1
   match flushedEvents hist, qs.mapM parseQuery with
   | some evs, some qs => " | ".intercalate (qs.map (answer evs))
